@@ -340,6 +340,60 @@ func (e *Engine) lookupNative(fi *FnInfo) *Native {
 			}
 			return float64(d.SVal()) / 1e9
 		})
+	// ---- sync.Pool: a pool may drop what it is given at any time; the model always does, so Get
+	// returns New() (or nil without New) and Put forgets its argument
+	case "(*sync.Pool).Put":
+		return simple(func(e *Engine, s *State, gi int, args []Value) Value { return nil })
+	case "(*sync.Pool).Get":
+		path := e.structFieldPath(recvElem(fi), "New")
+		return &Native{fn: func(e *Engine, s *State, gi int, fi *FnInfo, args []Value, kind retKind) {
+			f, _ := e.load(s, subPtr(args[0].(Ptr), path)).(*FuncV)
+			if f == nil || (f.fn == nil && f.native == "" && f.builtin == nil) {
+				e.finishCall(s, gi, kind, Iface{})
+				return
+			}
+			e.doCall(s, gi, f, nil, kind)
+		}}
+	// ---- sync.Cond: the runtime's ticket queue (notifyList{wait, notify}); Cond's own code runs from SSA
+	case "(*sync.copyChecker).check":
+		return simple(func(e *Engine, s *State, gi int, args []Value) Value { return nil })
+	case "sync.runtime_notifyListAdd":
+		wp := e.structFieldPath(recvElemOfParam(fi, 0), "wait")
+		return visible(func(e *Engine, s *State, gi int, args []Value) Value {
+			p := subPtr(args[0].(Ptr), wp)
+			t := e.cellInt(s, p)
+			e.store(s, p, ts.Const(32, t.val+1))
+			return t
+		})
+	case "sync.runtime_notifyListWait":
+		np := e.structFieldPath(recvElemOfParam(fi, 0), "notify")
+		return &Native{visible: true,
+			enabled: func(e *Engine, s *State, fv *FuncV, args []Value) bool {
+				return e.cellInt(s, subPtr(args[0].(Ptr), np)).val > args[1].(*Term).val
+			},
+			fn: func(e *Engine, s *State, gi int, fi *FnInfo, args []Value, kind retKind) {
+				e.raceAcquire(s, gi, "cond"+ptrKey(args[0].(Ptr)))
+				e.finishCall(s, gi, kind, nil)
+			}}
+	case "sync.runtime_notifyListNotifyAll", "sync.runtime_notifyListNotifyOne":
+		wp := e.structFieldPath(recvElemOfParam(fi, 0), "wait")
+		np := e.structFieldPath(recvElemOfParam(fi, 0), "notify")
+		all := strings.HasSuffix(name, "All")
+		return visible(func(e *Engine, s *State, gi int, args []Value) Value {
+			p := args[0].(Ptr)
+			w := e.cellInt(s, subPtr(p, wp)).val
+			n := e.cellInt(s, subPtr(p, np)).val
+			if all {
+				n = w
+			} else if n < w {
+				n++
+			}
+			e.store(s, subPtr(p, np), ts.Const(32, n))
+			e.raceRelease(s, gi, "cond"+ptrKey(p))
+			return nil
+		})
+	case "sync.runtime_registerPoolCleanup", "sync.runtime_notifyListCheck":
+		return simple(func(e *Engine, s *State, gi int, args []Value) Value { return nil })
 	case "time.Sleep":
 		return visible(func(e *Engine, s *State, gi int, args []Value) Value { return nil })
 	// ---- reflect (only what goat's RegisterService uses: TypeOf(x), Type.Elem(), Type.Implements(u))
@@ -387,6 +441,24 @@ func (e *Engine) lookupNative(fi *FnInfo) *Native {
 		})
 	case "(*reflect.rtype).String":
 		return simple(func(e *Engine, s *State, gi int, args []Value) Value { return e.rtypeOf(args[0]).String() })
+	case "maps.clone":
+		// runtime-implemented shallow copy of a map (maps.Clone)
+		return simple(func(e *Engine, s *State, gi int, args []Value) Value {
+			m, ok := args[0].(Iface)
+			if !ok || m.t == nil {
+				return args[0]
+			}
+			mv := m.v.(MapV)
+			if mv.obj == 0 {
+				return m
+			}
+			md := e.obj(s, mv.obj).m
+			nd := &MapData{keys: append([]Value(nil), md.keys...), vals: append([]Value(nil), md.vals...)}
+			id := s.alloc(&Object{m: nd, label: "maps.clone"})
+			nm := mv
+			nm.obj = id
+			return Iface{t: m.t, v: nm}
+		})
 	// ---- strings
 	case "strings.ToLower", "strings.ToUpper":
 		upper := name == "strings.ToUpper"
@@ -565,6 +637,23 @@ func (e *Engine) lookupNative(fi *FnInfo) *Native {
 			e.timerCtx(s)[tid] = id
 			return Ptr{obj: tid}
 		})
+	case "time.NewTicker":
+		// a ticker that never ticks within the explored window (periodic wake-ups are outside the
+		// bound, like unarmed timers)
+		return simple(func(e *Engine, s *State, gi int, args []Value) Value {
+			tt := fi.fn.Signature.Results().At(0).Type().Underlying().(*types.Pointer).Elem()
+			tv := e.zero(tt).(*StructV)
+			st := tt.Underlying().(*types.Struct)
+			f := append([]Value(nil), tv.f...)
+			for i := 0; i < st.NumFields(); i++ {
+				if st.Field(i).Name() == "C" {
+					f[i] = ChanV{obj: s.alloc(&Object{ch: &ChanData{cap: 1}, label: "ticker.C"})}
+				}
+			}
+			return Ptr{obj: s.alloc(&Object{v: &StructV{f}, label: "time.Ticker"})}
+		})
+	case "(*time.Ticker).Stop", "(*time.Ticker).Reset":
+		return simple(func(e *Engine, s *State, gi int, args []Value) Value { return nil })
 	case "(*time.Timer).Stop":
 		return visible(func(e *Engine, s *State, gi int, args []Value) Value {
 			cid, ok := e.timerCtx(s)[args[0].(Ptr).obj]
@@ -597,6 +686,21 @@ func (e *Engine) lookupNative(fi *FnInfo) *Native {
 			return Iface{t: m.t, v: e.deepClone(s, m.v, map[int]int{})}
 		})
 	}
+	if strings.HasPrefix(name, "slices.overlaps[") {
+		// unsafe pointer arithmetic in the original: do two slices share memory?
+		return simple(func(e *Engine, s *State, gi int, args []Value) Value {
+			a, b := args[0].(Slice), args[1].(Slice)
+			if a.obj == 0 || b.obj == 0 || a.obj != b.obj || len(a.path) != len(b.path) || a.ln == 0 || b.ln == 0 {
+				return ts.False
+			}
+			for i := range a.path {
+				if a.path[i] != b.path[i] {
+					return ts.False
+				}
+			}
+			return ts.Bool(a.off < b.off+b.ln && b.off < a.off+a.ln)
+		})
+	}
 	// ---- sync/atomic typed values: (*atomic.Int64).Load etc.
 	if strings.HasPrefix(name, "(*sync/atomic.") {
 		if n := e.atomicTyped(fi); n != nil {
@@ -616,19 +720,21 @@ func (e *Engine) lookupNative(fi *FnInfo) *Native {
 }
 
 var shimRedirects = map[string]string{
-	"fmt.Sprintf": "vfSprintf",
-	"fmt.Errorf":  "vfErrorf",
-	"fmt.Sprint":  "vfSprint",
-	"errors.Is":   "vfErrorsIs",
-	"errors.As":   "vfErrorsAs",
+	"fmt.Sprintf":      "vfSprintf",
+	"fmt.Errorf":       "vfErrorf",
+	"fmt.Sprint":       "vfSprint",
+	"sort.Slice":       "vfSortSlice",
+	"sort.SliceStable": "vfSortSlice",
+	"errors.Is":        "vfErrorsIs",
+	"errors.As":        "vfErrorsAs",
 	"google.golang.org/grpc/encoding.GetCodecV2": "vfGetCodecV2",
 	"google.golang.org/grpc/status.Errorf":       "vfStatusErrorf",
 	"(*github.com/coder/websocket.Conn).Read":    "vfWsRead",
 	"(*github.com/coder/websocket.Conn).Write":   "vfWsWrite",
-	"net/http.Error":                             "vfHttpError",
-	"net/http.NewRequest":                        "vfHttpNewRequest",
-	"(net/http.Header).Add":                      "vfHttpHeaderAdd",
-	"(*net/http.Client).Do":                      "vfHttpDo",
+	"net/http.Error":        "vfHttpError",
+	"net/http.NewRequest":   "vfHttpNewRequest",
+	"(net/http.Header).Add": "vfHttpHeaderAdd",
+	"(*net/http.Client).Do": "vfHttpDo",
 }
 
 func (e *Engine) shimFn(name string) *ssa.Function {
@@ -651,6 +757,9 @@ func (e *Engine) atomicTyped(fi *FnInfo) *Native {
 		return nil
 	}
 	meth := name[i+2:]
+	if k := strings.Index(meth, "["); k >= 0 {
+		meth = meth[:k] // generic instantiation: (*atomic.Pointer[T]).Load[T]
+	}
 	rt := recvElem(fi)
 	st, ok := rt.Underlying().(*types.Struct)
 	if !ok {
@@ -703,6 +812,7 @@ func (e *Engine) atomicTyped(fi *FnInfo) *Native {
 	case "Swap":
 		return visible(func(e *Engine, s *State, gi int, args []Value) Value {
 			p := subPtr(args[0].(Ptr), path)
+			e.raceBoth(s, gi, "at"+ptrKey(p))
 			old := e.load(s, p)
 			e.store(s, p, args[1])
 			return old
@@ -710,6 +820,7 @@ func (e *Engine) atomicTyped(fi *FnInfo) *Native {
 	case "CompareAndSwap":
 		return visible(func(e *Engine, s *State, gi int, args []Value) Value {
 			p := subPtr(args[0].(Ptr), path)
+			e.raceBoth(s, gi, "at"+ptrKey(p))
 			cur := e.load(s, p)
 			if e.decide(s, e.equal(cur, args[1])) {
 				e.store(s, p, args[2])
@@ -1275,6 +1386,30 @@ func (e *Engine) intrinsic(fi *FnInfo) *Native {
 			}
 			return e.toW(e.load(s, ptr).(*Term), 64, false)
 		})
+	case "vfSliceLenAny":
+		return simple(func(e *Engine, s *State, gi int, args []Value) Value {
+			x := args[0].(Iface)
+			if x.t == nil {
+				return ts.Const(64, 0)
+			}
+			return ts.Const(64, uint64(x.v.(Slice).ln))
+		})
+	case "vfSliceSwapAny":
+		return simple(func(e *Engine, s *State, gi int, args []Value) Value {
+			x := args[0].(Iface)
+			sl := x.v.(Slice)
+			i := e.concreteInt(args[1], "swap index")
+			j := e.concreteInt(args[2], "swap index")
+			if i < 0 || j < 0 || i >= sl.ln || j >= sl.ln {
+				e.gopanic("reflect: slice index out of range")
+			}
+			pi := Ptr{obj: sl.obj, path: appendPath(sl.path, sl.off+i)}
+			pj := Ptr{obj: sl.obj, path: appendPath(sl.path, sl.off+j)}
+			vi, vj := e.load(s, pi), e.load(s, pj)
+			e.store(s, pi, vj)
+			e.store(s, pj, vi)
+			return nil
+		})
 	case "vfTypeName":
 		return simple(func(e *Engine, s *State, gi int, args []Value) Value {
 			x := args[0].(Iface)
@@ -1482,4 +1617,9 @@ func (e *Engine) rtypeOf(v Value) types.Type {
 		unsup("reflect.Type %s not interned", k)
 	}
 	return t
+}
+
+// recvElemOfParam: the struct type the i-th (pointer) parameter points to.
+func recvElemOfParam(fi *FnInfo, i int) types.Type {
+	return fi.fn.Signature.Params().At(i).Type().Underlying().(*types.Pointer).Elem()
 }
